@@ -78,41 +78,3 @@ def _e_Call(self, st, node):
 
 _symexec.Executor._e_Call = _e_Call
 
-
-# ---- symbolic value == enum member ------------------------------------------------------------------------------
-# ENGINE GAP (core, reported): Executor.compare evaluates `x == Enum.MEMBER` to the CONSTANT False when x is a symbolic value
-# (kind any) and the member is a python-level object; every branch guarded by such a test is then silently dead and a contract
-# about it is vacuous (found by a breaking edit of Beta.dict_of_elementary_expression that survived).  Here, while a
-# dict_of_elementary_expression body is verified for C12: an enum member is the opaque constant the core already uses when the
-# member is stored (Executor.box), the members of one enum class are pairwise distinct, and `x == MEMBER` is equality with it.
-_orig_compare = _symexec.Executor.compare
-
-
-def _names_scope(ex):
-    return (ex.ctx.prop == 'C12' and ex.frames and ex.frames[0].func is not None
-            and ex.frames[0].func.qualname.endswith('.dict_of_elementary_expression'))
-
-
-def _is_enum(v):
-    return v.kind == 'py' and v.py and v.py[0] == 'enum'
-
-
-def _compare(self, st, op, l, r, node):
-    if isinstance(op, (_ast.Eq, _ast.NotEq)) and _names_scope(self) and (_is_enum(l) != _is_enum(r)):
-        en, other = (l, r) if _is_enum(l) else (r, l)
-        if other.kind != 'py' and other.t is not None:
-            from pyvc.vals import v_bool, v_py
-            ci = self.repo.find_class(en.py[1])
-            members = [n for n in ci.class_attrs] if ci is not None else [en.py[2]]
-            terms = [self.box(st, v_py(('enum', en.py[1], n))) for n in members]
-            if len(terms) > 1:
-                fact = z3.Distinct(*terms)
-                if not any(fact.eq(h) for h in st.pc):
-                    st.pc.append(fact)
-            self.ctx.note(f'ENUM(c12c) x == {en.py[1]}.{en.py[2]}: equality with the opaque constant of the member; members pairwise distinct')
-            c = other.t == self.box(st, en)
-            return v_bool(c if isinstance(op, _ast.Eq) else z3.Not(c))
-    return _orig_compare(self, st, op, l, r, node)
-
-
-_symexec.Executor.compare = _compare
